@@ -140,7 +140,12 @@ def _detected(lines, npts, tall=False):
     for k, (j, a, b) in enumerate(lines):
         n = npts[k % len(npts)]
         bsl = np.stack([np.linspace(2 * a + 1, 2 * b + 1, n), np.full(n, 2 * j + 1.0)], 1)
-        h = [3.0, 1.0] if tall else [1.0, 1.0]       # tall: the outline band covers the line's row and the row above
+        # tall: the baseline runs a quarter pixel above the cell centre and the band reaches into the row above (ascender 2.5,
+        # descender 1): its edges (y = 2j - 1.75 and 2j + 1.75) lie on no cell boundary, so the clipped outline of a line that
+        # crosses a notch is a proper MultiPolygon (no edge coincides with the region's boundary)
+        if tall:
+            bsl = bsl - np.array([0.0, 0.25])
+        h = [2.5, 1.0] if tall else [1.0, 1.0]
         bl.append(bsl)
         hl.append(h)
         tl.append(helpers.baseline_to_textline(bsl, h))
